@@ -1130,11 +1130,15 @@ impl<T: Transport + 'static> SyncEngine<T> {
                         }
 
                         // An entry that is already gone (removed together with its parent
-                        // directory by another delete task of this run) is deleted, not failed
+                        // directory by another delete task of this run) is deleted, not failed.
+                        // NotADirectory: the parent was removed and its name reused by a file
+                        // since (e.g. the working file of a concurrent update), so nothing
+                        // can exist below it any more.
                         let delete_result = match transferrer.delete(&task.dest_path, is_dir).await
                         {
                             Err(crate::error::SyncError::Io(ref e))
-                                if e.kind() == std::io::ErrorKind::NotFound =>
+                                if e.kind() == std::io::ErrorKind::NotFound
+                                    || e.kind() == std::io::ErrorKind::NotADirectory =>
                             {
                                 Ok(())
                             }
